@@ -7,7 +7,7 @@ props = [json.loads(l) for l in open(V + "/properties.jsonl")]
 checks = json.load(open(V + "/checks.json"))
 
 TEXT = {
- "C01": ("rapid property test: generated struct types (reflect.StructOf) x defaults x 0-5 partial layers against a pure stacking model located by field name, plus two metamorphic relations; compiled types through Config[T] with interleaved static / watching sources, in-place re-reports and watchers that finish early; inputs whose leaves share storage; pointer-to-func / pointer-to-chan fields between leaves",
+ "C01": ("rapid property test: generated struct types (reflect.StructOf) x defaults x 0-5 partial layers (one source object may be listed twice) against a pure stacking model located by field name, plus two metamorphic relations; compiled types through Config[T] with interleaved static / watching sources, in-place re-reports and watchers that finish early; inputs whose leaves share storage; pointer-to-func / pointer-to-chan fields between leaves",
          "Every generated case is stacked by the real compose and compared leaf by leaf with an independent reference model; exploration is bounded (depth<=3, <=8 fields/struct, <=5 layers) and sampled, so it shows absence of violations only on the explored cases."),
  "C02": ("rapid property tests: address-range disjointness + scribble-and-recheck + stack-twice on reflect-built types through compose and on a compiled type through a real Dials with fake watchers; first use of a type from several goroutines; slots of an interface type with methods holding reference implementations; rejected configs collected from OnWatchedError stay isolated and are never installed",
          "Aliasing is invisible to value assertions; the check walks addresses of every pointer/map/slice backing array and also overwrites one version and re-checks all others. Sampled, bounded shapes and histories (<=8 re-stacks)."),
